@@ -104,6 +104,12 @@ def per_build_caches(repo, run, rule):
         for e in p.events:
             if e.kind == 'store' and e.target.startswith('self._eval_cache'):
                 caches.add(e.target[5:])
+    from .. import shared
+    shared_caches = [(c, a, m) for c, a, m in shared.class_mutables_via_self(repo) if c == 'EvalContext' and a.startswith('_eval_cache')]
+    for c, a, m in shared_caches:
+        run.violation(rule, m[0][0], '%s.%s' % (c, a), 'the evaluation cache %s is a class-level object that is never assigned per context: every EvalContext (nested builds, other threads) reads and clears the same memo, so a build that starts or finishes during another one wipes / pollutes its results' % a, node=m[0][1])
+    if shared_caches:
+        return
     if len(caches) < 2:
         raise AnalysisError('EvalContext caches not found')
     paths = tr.paths_of(repo, fi, no_inline={'evaluate_node'}, follow_exceptions=True)
